@@ -19,7 +19,8 @@ import ast
 
 from ..cfg import ENTRY, EXIT, header_parts
 from ..effects import FS_WRITE
-from ..loader import AnalysisError, ClassInfo, FuncInfo, dotted, norm, walk_no_nested
+from ..flow import Defs, Scope, guard_facts, iterations
+from ..loader import AnalysisError, FuncInfo, dotted, norm, walk_no_nested
 from ..report import Ctx
 from ..selftest import Mutant
 
@@ -48,6 +49,75 @@ PATH_EXEMPT = {  # builders of paths that are not result files of a run folder: 
 SANITIZERS = {"dict", "list", "tuple", "set", "copy.copy", "copy.deepcopy"}
 
 
+def _last(name: str) -> str:
+    return name.rsplit(".", 1)[-1]
+
+
+def _calls_feeding(ctx: Ctx, fn: FuncInfo, e: ast.AST, depth: int = 2, seen: set[str] | None = None, exclude: frozenset[str] = frozenset()) -> set[str]:
+    """Names of the functions applied on the way to the value `e` (through locals and private helpers of the module)."""
+    seen = seen if seen is not None else set()
+    out: set[str] = set()
+    for c in [c for c in ast.walk(e) if isinstance(c, ast.Call)]:
+        nm = _last(dotted(c.func)) or (c.func.attr if isinstance(c.func, ast.Attribute) else "")
+        out.add(nm)
+        for callee in ctx.cg.resolve_callable(fn, c.func):
+            if callee.module.name == fn.module.name and callee.qualname not in seen and callee.name.startswith("_"):
+                seen.add(callee.qualname)
+                out |= _calls_feeding(ctx, callee, callee.node, 0, seen)
+    if depth:
+        bound = {x.id for c in ast.walk(e) if isinstance(c, ast.comprehension) for x in ast.walk(c.target) if isinstance(x, ast.Name)}
+        for n in {x.id for x in ast.walk(e) if isinstance(x, ast.Name)} - exclude - bound:
+            for st in ast.walk(fn.node):
+                if isinstance(st, (ast.Assign, ast.AnnAssign)) and st.value is not None:
+                    tg = st.targets if isinstance(st, ast.Assign) else [st.target]
+                    if any((isinstance(t, ast.Name) and t.id == n) or (isinstance(t, ast.Subscript) and isinstance(t.value, ast.Name) and t.value.id == n) for t in tg) and st.value is not e:
+                        out |= _calls_feeding(ctx, fn, st.value, depth - 1, seen, exclude)
+                if isinstance(st, ast.For) and any(isinstance(x, ast.Name) and x.id == n for x in ast.walk(st.target)):
+                    out |= _calls_feeding(ctx, fn, st.iter, depth - 1, seen, exclude)
+    return out
+
+
+def _field_ops(ctx: Ctx, fn: FuncInfo, var: str) -> dict[str, set[str]]:
+    """key -> functions applied to what is stored into `var[key]` in `fn` (loops over literal key lists expanded)."""
+    ops: dict[str, set[str]] = {}
+    par = {id(c): p for p in ast.walk(fn.node) for c in ast.iter_child_nodes(p)}
+    for st in ast.walk(fn.node):
+        if not isinstance(st, ast.Assign):
+            continue
+        for t in st.targets:
+            if not (isinstance(t, ast.Subscript) and isinstance(t.value, ast.Name) and t.value.id == var):
+                continue
+            keys: list[str] = []
+            if isinstance(t.slice, ast.Constant) and isinstance(t.slice.value, str):
+                keys = [t.slice.value]
+            elif isinstance(t.slice, ast.Name):
+                x: ast.AST = st
+                while id(x) in par:
+                    x = par[id(x)]
+                    if isinstance(x, ast.For) and norm(x.target) == t.slice.id:
+                        src = x.iter
+                        if isinstance(src, ast.Name):
+                            d = [a.value for a in ast.walk(fn.node) if isinstance(a, ast.Assign) and any(norm(tt) == src.id for tt in a.targets)]
+                            keys += [e.value for v in d if isinstance(v, (ast.List, ast.Tuple)) for e in v.elts if isinstance(e, ast.Constant)]
+                            keys += [c.args[0].value for c in ast.walk(fn.node) if isinstance(c, ast.Call) and norm(c.func) == f"{src.id}.append" and c.args and isinstance(c.args[0], ast.Constant)]
+                        elif isinstance(src, (ast.List, ast.Tuple)):
+                            keys += [e.value for e in src.elts if isinstance(e, ast.Constant)]
+            for k in keys:
+                ops.setdefault(k, set()).update(_calls_feeding(ctx, fn, st.value, exclude=frozenset({var})))
+    return ops
+
+
+def _data_var(fn: FuncInfo, *makers: str) -> str | None:
+    for st in walk_no_nested(fn.node):
+        if isinstance(st, ast.Assign) and isinstance(st.targets[0], ast.Name) and isinstance(st.value, ast.Call) and _last(dotted(st.value.func)) in makers:
+            return st.targets[0].id
+        if isinstance(st, ast.With):
+            for s2 in ast.walk(st):
+                if isinstance(s2, ast.Assign) and isinstance(s2.targets[0], ast.Name) and isinstance(s2.value, ast.Call) and _last(dotted(s2.value.func)) in makers:
+                    return s2.targets[0].id
+    return None
+
+
 def _keys_subscripted(fn_node: ast.AST, var: str, ctxs=(ast.Store, ast.Del, ast.Load)) -> list[tuple[str, ast.Subscript]]:
     out = []
     for n in ast.walk(fn_node):
@@ -56,184 +126,173 @@ def _keys_subscripted(fn_node: ast.AST, var: str, ctxs=(ast.Store, ast.Del, ast.
     return out
 
 
-def check(ctx: Ctx) -> None:  # noqa: C901, PLR0912, PLR0915
-    P, cg, eff = ctx.prog, ctx.cg, ctx.effects
+def rule_table(ctx: Ctx) -> None:  # noqa: C901
+    P = ctx.prog
     ri = P.cls(f"{RI}.RunInfo")
     fields = set(ri.fields)
     dump, load = ri.methods["dump"], ri.methods["load"]
-
-    # ------------------------------------------------------------ 1 table
-    base = [s for s in walk_no_nested(dump.node) if isinstance(s, ast.Assign) and norm(s.targets[0]) == "data" and norm(s.value) == "asdict(self)"]
-    if not base:
-        raise AnalysisError("RunInfo.dump: `data = asdict(self)` not found")
-    deleted = {k for k, n in _keys_subscripted(dump.node, "data", (ast.Del,))}
-    stored = {k for k, n in _keys_subscripted(dump.node, "data", (ast.Store,))}
+    dv, lv = _data_var(dump, "asdict"), _data_var(load, "load", "loads")
+    if dv is None or lv is None:
+        raise AnalysisError("RunInfo.dump / RunInfo.load: the mapping that is written / read was not found")
+    deleted = {k for k, n in _keys_subscripted(dump.node, dv, (ast.Del,))} | {c.args[0].value for c in ast.walk(dump.node) if isinstance(c, ast.Call) and norm(c.func) == f"{dv}.pop" and c.args and isinstance(c.args[0], ast.Constant)}
+    stored = {k for k, n in _keys_subscripted(dump.node, dv, (ast.Store,))}
     written = (fields - deleted) | stored
-    popped = {c.args[0].value for c in ast.walk(load.node) if isinstance(c, ast.Call) and norm(c.func) == "data.pop" and c.args and isinstance(c.args[0], ast.Constant)}
-    stored_l = {k for k, n in _keys_subscripted(load.node, "data", (ast.Store,))}
-    read_l = {k for k, n in _keys_subscripted(load.node, "data", (ast.Load,))} | popped
-    # replay stores and pops of load() in source order on the written key set
-    events = [(n.lineno, n.col_offset, "store", k) for k, n in _keys_subscripted(load.node, "data", (ast.Store,))]
-    events += [(c.lineno, c.col_offset + 10_000, "pop", c.args[0].value) for c in ast.walk(load.node)
-               if isinstance(c, ast.Call) and norm(c.func) == "data.pop" and c.args and isinstance(c.args[0], ast.Constant)]
+    pops = [c for c in ast.walk(load.node) if isinstance(c, ast.Call) and norm(c.func) == f"{lv}.pop" and c.args and isinstance(c.args[0], ast.Constant)]
+    popped = {c.args[0].value for c in pops}
+    stored_l = {k for k, n in _keys_subscripted(load.node, lv, (ast.Store,))}
+    read_l = {k for k, n in _keys_subscripted(load.node, lv, (ast.Load,))} | popped
+    events = [(n.lineno, n.col_offset, "store", k) for k, n in _keys_subscripted(load.node, lv, (ast.Store,))] + [(c.lineno, c.col_offset + 10_000, "pop", c.args[0].value) for c in pops]
     after = set(written)
-    for _l, _c, kind, k in sorted(events):
+    for _l, _c, kind, k in sorted(events):  # stores and pops of load() replayed in source order
         if kind == "store":
             after.add(k)
         else:
             after.discard(k)
-    ok = after == fields
-    ctx.add("1-table", load, load.node, ok, f"keys written {sorted(written)} are turned back into exactly the dataclass fields" if ok else
+    ctx.add("1-table", load, load.node, after == fields, f"keys written {sorted(written)} are turned back into exactly the dataclass fields" if after == fields else
             f"writer/reader disagree: written={sorted(written)}, popped={sorted(popped)}, added on load={sorted(stored_l)} -> {sorted(after)} but the fields are {sorted(fields)}", key="keyset")
-    unknown = read_l - written
+    unknown = read_l - written - stored_l
     ctx.add("1-table", load, load.node, not unknown, "load only reads keys that dump writes" if not unknown else f"load reads keys that dump never writes: {sorted(unknown)}", key="reads-written")
-    ctor = [c for c in ast.walk(load.node) if isinstance(c, ast.Call) and norm(c.func) == "cls"]
-    ok = bool(ctor) and any(k.arg is None and norm(k.value) == "data" for k in ctor[0].keywords)
-    ctx.add("1-table", load, ctor[0] if ctor else load.node, ok, "the decoded mapping is passed whole to the constructor" if ok else "load no longer builds cls(**data)", key="ctor")
-    # tuple-key encoding
-    enc = set()
-    for s in walk_no_nested(dump.node):
-        if isinstance(s, ast.Assign) and norm(s.targets[0]) == "dicts_with_tuples" and isinstance(s.value, ast.List):
-            enc |= {e.value for e in s.value.elts if isinstance(e, ast.Constant)}
-        if isinstance(s, ast.Expr) and isinstance(s.value, ast.Call) and norm(s.value.func) == "dicts_with_tuples.append":
-            enc.add(s.value.args[0].value)  # type: ignore[union-attr]
-    enc_loop = [lp for lp in walk_no_nested(dump.node) if isinstance(lp, ast.For) and norm(lp.iter) == "dicts_with_tuples" and "_maybe_tuple_to_str(k)" in norm(lp)]
-    dec = set()
-    for lp in walk_no_nested(load.node):
-        if isinstance(lp, ast.For) and isinstance(lp.iter, ast.List) and "_maybe_str_to_tuple(k)" in norm(lp):
-            dec |= {e.value for e in lp.iter.elts if isinstance(e, ast.Constant)}
-        if isinstance(lp, ast.If) and "_maybe_str_to_tuple(k)" in norm(lp):
-            for k, _n in _keys_subscripted(lp, "data", (ast.Store,)):
-                dec.add(k)
-    ok = bool(enc_loop) and enc == dec and {"shapes", "shape_masks"} <= enc
-    ctx.add("1-table", dump, enc_loop[0] if enc_loop else dump.node, ok, f"tuple keys encoded and decoded for the same fields {sorted(enc)}" if ok else f"tuple keys are encoded for {sorted(enc)} but decoded for {sorted(dec)}", key="tuple-keys")
+    ctor = [c for c in ast.walk(load.node) if isinstance(c, ast.Call) and norm(c.func) in ("cls", "RunInfo")]
+    ctx.tri("1-table", load, ctor[0] if ctor else load.node, bool(ctor) and any(k.arg is None and norm(k.value) == lv for k in ctor[0].keywords), False, "the decoded mapping is passed whole to the constructor", "", "construction from the decoded mapping not recognised", key="ctor")
+    ops_d, ops_l = _field_ops(ctx, dump, dv), _field_ops(ctx, load, lv)
+    enc = {k for k, v in ops_d.items() if "_maybe_tuple_to_str" in v}
+    dec = {k for k, v in ops_l.items() if "_maybe_str_to_tuple" in v}
+    ctx.tri("1-table", dump, dump.node, enc == dec and {"shapes", "shape_masks"} <= enc, enc != dec, f"tuple keys encoded and decoded for the same fields {sorted(enc)}",
+            f"tuple keys are encoded for {sorted(enc)} but decoded for {sorted(dec)}: {sorted(enc ^ dec)} reload(s) with other keys than were recorded", "tuple-key coding not recognised", key="tuple-keys")
     t2s, s2t = P.func(f"{RI}._maybe_tuple_to_str"), P.func(f"{RI}._maybe_str_to_tuple")
-    seps_w = {c.value for c in ast.walk(t2s.node) if isinstance(c, ast.Constant) and isinstance(c.value, str)}
-    seps_r = {c.value for c in ast.walk(s2t.node) if isinstance(c, ast.Constant) and isinstance(c.value, str)}
-    ok = seps_w == seps_r == {","} and ".join(x)" in norm(t2s.node) and "x.split(" in norm(s2t.node)
-    ctx.add("1-table", t2s, t2s.node, ok, "same separator for joining and splitting tuple keys" if ok else f"separator mismatch: written with {seps_w}, read with {seps_r}", key="separator")
-    decode = {"all_output_names": "set(", "run_folder": "Path(", "shapes": "tuple(v)", "shape_masks": "tuple(v)", "internal_shapes": "tuple(v)"}
-    for f_, marker in decode.items():
-        hit = any(k == f_ and marker in norm(n_parent) for k, n in _keys_subscripted(load.node, "data", (ast.Store,)) for n_parent in [s for s in ast.walk(load.node) if isinstance(s, ast.Assign) and any(n is t for t in s.targets)]) \
-            or any(isinstance(lp, ast.For) and isinstance(lp.iter, ast.List) and f_ in {e.value for e in lp.iter.elts if isinstance(e, ast.Constant)} and marker in norm(lp) for lp in walk_no_nested(load.node))
-        ctx.add("1-table", load, load.node, hit, f"`{f_}` is decoded back with {marker}...)" if hit else f"`{f_}` comes back from JSON with another type (no {marker}...) step): the reloaded RunInfo differs from the recorded one", key=f"decode {f_}")
-    ok = "sorted(data['all_output_names'])" in norm(dump.node) and "str(data['run_folder'])" in norm(dump.node)
-    ctx.add("1-table", dump, dump.node, ok, "set / Path fields are made JSON-serialisable" if ok else "dump no longer converts the set / Path fields", key="encode-nonjson")
-    for k, expr in (("inputs", "load(Path(v))"), ("defaults", "load(Path(data.pop('defaults_path')))")):
-        ok = any(kk == k and expr in norm(s) for s in ast.walk(load.node) if isinstance(s, ast.Assign) for kk, _n in _keys_subscripted(s, "data", (ast.Store,)))
-        ctx.add("1-table", load, load.node, ok, f"`{k}` are read back from the recorded paths" if ok else f"`{k}` are not reloaded from the recorded path(s)", key=f"reload {k}")
-    ip = ri.methods["input_paths"]
-    ok = "_input_path(k, self.run_folder) for k in self.inputs" in norm(ip.node)
-    ctx.add("1-table", ip, ip.node, ok, "one recorded path per input" if ok else "input_paths no longer lists every input", key="input-paths")
+    seps_w = {c.func.value.value for c in ast.walk(t2s.node) if isinstance(c, ast.Call) and isinstance(c.func, ast.Attribute) and c.func.attr == "join" and isinstance(c.func.value, ast.Constant)}
+    seps_r = {c.args[0].value for c in ast.walk(s2t.node) if isinstance(c, ast.Call) and isinstance(c.func, ast.Attribute) and c.func.attr == "split" and c.args and isinstance(c.args[0], ast.Constant)}
+    ctx.tri("1-table", t2s, t2s.node, bool(seps_w) and seps_w == seps_r, bool(seps_w) and bool(seps_r) and seps_w != seps_r, "same separator for joining and splitting tuple keys",
+            f"separator mismatch: tuple keys are written with {seps_w} and split on {seps_r}", "separators not recognised", key="separator")
+    # decode requirements derived from the field annotations
+    need: dict[str, str] = {}
+    for fname, ann in ri.fields.items():
+        t = norm(ann.annotation) if ann.annotation is not None else ""
+        if t.startswith("set[") or t.startswith("frozenset["):
+            need[fname] = "set"
+        elif t.startswith("Path") or "Path |" in t or "| Path" in t:
+            need[fname] = "Path"
+        elif "tuple[" in t and t.startswith("dict["):
+            need[fname] = "tuple"
+    for fname, ctor_ in sorted(need.items()):
+        if fname in ("inputs", "defaults"):
+            continue
+        got = ops_l.get(fname, set())
+        ctx.add("1-table", load, load.node, ctor_ in got, f"`{fname}` is decoded back with {ctor_}(...)" if ctor_ in got else
+                f"`{fname}` is annotated `{norm(ri.fields[fname].annotation)[:40]}` but comes back from JSON without a {ctor_}(...) step: the reloaded RunInfo differs from the recorded one", key=f"decode {fname}")
+    for k in ("inputs", "defaults"):
+        got = ops_l.get(k, set())
+        ctx.add("1-table", load, load.node, "load" in got, f"`{k}` are read back from the recorded path(s)" if "load" in got else f"`{k}` are not reloaded from the recorded path(s)", key=f"reload {k}")
 
-    # ------------------------------------------------------------ 2 paths
+
+def rule_paths(ctx: Ctx) -> None:
+    P = ctx.prog
+    ri = P.cls(f"{RI}.RunInfo")
     n_paths = 0
     for mod in ("pipefunc.map._run", "pipefunc.map._run_info", "pipefunc.map._load", "pipefunc.map._prepare", "pipefunc.map.adaptive",
                 "pipefunc.map._storage_array._file", "pipefunc.map._storage_array._dict", "pipefunc.map._storage_array._base", "pipefunc.map.xarray"):
         for fn in P.functions_in(mod):
-            for b in [b for b in walk_no_nested(fn.node) if isinstance(b, ast.BinOp) and isinstance(b.op, ast.Div)]:
-                if not any(isinstance(x, (ast.Constant, ast.JoinedStr)) and (not isinstance(x, ast.Constant) or isinstance(x.value, str)) for x in (b.left, b.right)) and "format(" not in norm(b.right):
+            for b_ in [b_ for b_ in walk_no_nested(fn.node) if isinstance(b_, ast.BinOp) and isinstance(b_.op, ast.Div)]:
+                if not any(isinstance(x, (ast.Constant, ast.JoinedStr)) and (not isinstance(x, ast.Constant) or isinstance(x.value, str)) for x in (b_.left, b_.right)) and "format(" not in norm(b_.right):
                     continue
                 n_paths += 1
-                ok = fn.qualname in PATH_HELPERS or fn.qualname in PATH_EXEMPT
-                ctx.add("2-paths", fn, b, ok, "path built by a path helper" if ok else f"`{norm(b)[:70]}` builds a run-folder path by hand: writer and reader can drift apart", key=f"path in {fn.name}: {norm(b)[:50]}")
+                ok = fn.qualname in PATH_HELPERS or fn.qualname in PATH_EXEMPT or (fn.name.startswith("_") and "path" in fn.name and fn.module.name == RI)
+                ctx.add("2-paths", fn, b_, ok, "path built by a path helper" if ok else f"`{norm(b_)[:70]}` builds a run-folder path by hand: writer and reader can drift apart", key=f"path in {fn.name}: {norm(b_)[:50]}")
     ctx.floor("2-paths", n_paths, 6)
-    users = {"_input_path": {f"{RI}.RunInfo._write", f"{RI}.RunInfo.input_paths"}, "_defaults_path": {f"{RI}.RunInfo._write", f"{RI}.RunInfo.defaults_path"},
-             "_output_path": {f"{RI}.RunInfo.init_store"}, "_maybe_array_path": {f"{RI}._init_arrays"}}
-    for h, want in users.items():
-        got = {s.caller.qualname for s in cg.call_sites_of(f"{RI}.{h}")}
-        ok = want <= got
-        ctx.add("2-paths", f"{RI}.{h}", P.func(f"{RI}.{h}").loc, ok, f"writer and reader both use {h}" if ok else f"{h} is no longer used by {sorted(want - got)}", key=f"users {h}")
     wr = ri.methods["_write"]
-    ok = "dump(value, input_path)" in norm(wr.node) and "for input_name, value in self.inputs.items()" in norm(wr.node) and "dump(self.defaults, defaults_path)" in norm(wr.node)
-    ctx.add("2-paths", wr, wr.node, ok, "every input and the defaults are written under their helper paths" if ok else "_write no longer stores every input / the defaults", key="write-all")
+    reach = ctx.cg.reachable(wr.qualname)
+    for h in ("_input_path", "_defaults_path"):
+        ctx.tri("2-paths", wr, wr.node, f"{RI}.{h}" in reach, False, f"the writer names its files through {h}", "", f"{h} is not reached from RunInfo._write", key=f"users {h}")
+    its = [it for it in iterations(wr.node) if "self.inputs" in norm(it["iter"]) or "input_paths" in norm(it["iter"])]
+    part = [it for it in its if isinstance(it["iter"], ast.Subscript) or it["filters"]]
+    ctx.tri("2-paths", wr, wr.node, bool(its) and not part, bool(part), "every input is written", "only part of the inputs is written: RunInfo.load fails on the missing files", "writing of the inputs not recognised", key="write-all")
 
-    # ------------------------------------------------------------ 3 process
+
+def rule_process(ctx: Ctx) -> None:
+    P = ctx.prog
     tainted = _proxy_fields(ctx)
     ctx.floor("3-process.tainted-classes", len(tainted), 1)
     n_sink = 0
     for cls_q, fields_t in tainted.items():
         for c in P.mro(cls_q):
             for m in c.methods.values():
-                for call in [x for x in walk_no_nested(m.node) if isinstance(x, ast.Call) and dotted(x.func).rsplit(".", 1)[-1] in ("dump", "dumps")]:
+                d = Defs(m)
+                for call in [x for x in walk_no_nested(m.node) if isinstance(x, ast.Call) and _last(dotted(x.func)) in ("dump", "dumps")]:
                     if not call.args:
                         continue
-                    arg = call.args[0]
-                    bare = isinstance(arg, ast.Attribute) and isinstance(arg.value, ast.Name) and arg.value.id == "self" and arg.attr in fields_t
-                    wrapped = isinstance(arg, ast.Call) and (dotted(arg.func) in SANITIZERS or (isinstance(arg.func, ast.Attribute) and arg.func.attr == "copy")) and any(
-                        isinstance(a, ast.Attribute) and a.attr in fields_t for a in ast.walk(arg))
+                    a0 = d.resolve(call.args[0])
+                    bare = isinstance(a0, ast.Attribute) and isinstance(a0.value, ast.Name) and a0.value.id == "self" and a0.attr in fields_t
+                    wrapped = isinstance(a0, (ast.Call, ast.Dict, ast.DictComp)) and (not isinstance(a0, ast.Call) or dotted(a0.func) in SANITIZERS or (isinstance(a0.func, ast.Attribute) and a0.func.attr == "copy")) and any(
+                        isinstance(x, ast.Attribute) and x.attr in fields_t for x in ast.walk(a0))
                     if not (bare or wrapped):
                         continue
                     n_sink += 1
-                    ctx.add("3-process", m, call, wrapped, f"the proxy-backed field is copied into a plain container before pickling ({cls_q.rsplit('.', 1)[-1]})" if wrapped else
-                            f"`{norm(call)[:60]}` pickles self.{arg.attr}, which is a multiprocessing manager proxy in {cls_q.rsplit('.', 1)[-1]}: the file can only be read while that manager process lives",  # type: ignore[union-attr]
-                            key=f"sink {cls_q.rsplit('.', 1)[-1]}.{m.name}")
+                    ctx.add("3-process", m, call, wrapped, f"the proxy-backed field is copied into a plain container before pickling ({_last(cls_q)})" if wrapped else
+                            f"`{norm(call)[:60]}` pickles self.{a0.attr}, which is a multiprocessing manager proxy in {_last(cls_q)}: the file can only be read while that manager process lives",  # type: ignore[union-attr]
+                            key=f"sink {_last(cls_q)}.{m.name}")
     ctx.floor("3-process.sinks", n_sink, 1)
     ud = P.func("pipefunc._utils.dump")
-    ser = [dotted(c.func) for c in ast.walk(ud.node) if isinstance(c, ast.Call) and dotted(c.func).rsplit(".", 1)[-1] in ("dump", "dumps") and "." in dotted(c.func)]
-    ok = ser == ["cloudpickle.dump"]
-    ctx.add("3-process", ud, ud.node, ok, "values are serialised with cloudpickle only (objects of __main__ by value)" if ok else f"dump serialises with {ser}: objects defined in the writing script are stored by reference and cannot be loaded elsewhere", key="cloudpickle-only")
-    ul = P.func("pipefunc._utils.load")
-    ok = "cloudpickle.load(f)" in norm(ul.node) and "'rb'" in norm(ul.node)
-    ctx.add("3-process", ul, ul.node, ok, "load reads with cloudpickle in binary mode" if ok else "load changed", key="load")
+    ser = sorted({dotted(c.func) for _f, c in Scope(ctx, ud).walk() if isinstance(c, ast.Call) and _last(dotted(c.func)) in ("dump", "dumps") and "." in dotted(c.func)})
+    ctx.tri("3-process", ud, ud.node, ser == ["cloudpickle.dump"] or ser == ["cloudpickle.dumps"], any(x.startswith(("pickle.", "json.", "marshal.")) for x in ser),
+            "values are serialised with cloudpickle only (objects of __main__ by value)", f"dump serialises with {ser}: objects defined in the writing script are stored by reference and cannot be loaded elsewhere", f"serialisers {ser}", key="cloudpickle-only")
 
-    # ------------------------------------------------------------ 4 rebuild
+
+def rule_rebuild(ctx: Ctx) -> None:
+    P = ctx.prog
+    ri = P.cls(f"{RI}.RunInfo")
+    for q in ("pipefunc.map._load.load_outputs", "pipefunc.map._load.load_xarray_dataset"):
+        f = P.func(q)
+        t = Scope(ctx, f).text()
+        ctx.tri("4-rebuild", f, f.node, "RunInfo.load(" in t, False, f"{f.name} works from the recorded RunInfo", "", f"{f.name}: RunInfo.load(...) not found", key=f"from-run-info {f.name}")
     lo = P.func("pipefunc.map._load.load_outputs")
-    src = norm(lo.node)
-    ok = "run_info = RunInfo.load(run_folder)" in src and "store = run_info.init_store()" in src and "_load_from_store(output_name, store).value" in src and "_maybe_load_array(o)" in src
-    ctx.add("4-rebuild", lo, lo.node, ok, "load_outputs: RunInfo.load -> init_store -> _load_from_store -> to_array" if ok else "load_outputs no longer rebuilds the store from the recorded RunInfo", key="load-outputs")
-    lx = P.func("pipefunc.map._load.load_xarray_dataset")
-    ok = "run_info = RunInfo.load(run_folder)" in norm(lx.node) and "run_info.mapspecs" in norm(lx.node) and "run_info.inputs" in norm(lx.node)
-    ctx.add("4-rebuild", lx, lx.node, ok, "load_xarray_dataset reads mapspecs and inputs from the recorded RunInfo" if ok else "load_xarray_dataset no longer goes through RunInfo.load", key="load-xarray")
+    t = Scope(ctx, lo).text()
+    ctx.tri("4-rebuild", lo, lo.node, ".init_store()" in t and "_load_from_store(" in t, False, "load_outputs: RunInfo.load -> init_store -> _load_from_store", "", "rebuild of the store not recognised", key="load-outputs")
     ist = ri.methods["init_store"]
-    src = norm(ist.node)
-    ok = "shape = self.shapes[output_name]" in src and "mask = self.shape_masks[output_name]" in src and "_init_arrays(output_name, shape, mask, self.storage_class(output_name), self.run_folder)" in src
-    ctx.add("4-rebuild", ist, ist.node, ok, "arrays are rebuilt from the recorded shape, mask, storage class and folder" if ok else "init_store no longer derives the arrays from the recorded shapes/masks/storage", key="init-store")
-    ok = "for output_name in self.all_output_names" in src and "_output_path(output_name, self.run_folder)" in src and "if mapspec.inputs" in src
-    ctx.add("4-rebuild", ist, ist.node, ok, "every other output gets its file path (or a DirectValue without folder)" if ok else "outputs without MapSpec are not given their file path", key="init-store-paths")
-    ia = P.func(f"{RI}._init_arrays")
-    src = norm(ia.node)
-    ok = "external_shape = external_shape_from_mask(shape, mask)" in src and "internal_shape = internal_shape_from_mask(shape, mask)" in src and "storage_class(path, external_shape, internal_shape, mask) for path in paths" in src
-    ctx.add("4-rebuild", ia, ia.node, ok, "constructor called as (path, external shape, internal shape, mask)" if ok else "_init_arrays passes the shapes/mask in another order or from other sources", key="ctor-args")
+    d = Defs(ist)
+    ia_calls = [c for c in ast.walk(ist.node) if isinstance(c, ast.Call) and dotted(c.func) == "_init_arrays"]
+    if ia_calls:
+        a = [norm(d.resolve(x)) for x in ia_calls[0].args]
+        good = len(a) >= 3 and "self.shapes[" in a[1] and "self.shape_masks[" in a[2]
+        swapped = len(a) >= 3 and "self.shape_masks[" in a[1] and "self.shapes[" in a[2]
+        ctx.tri("4-rebuild", ist, ia_calls[0], good, swapped, "arrays are rebuilt from the recorded shape and mask", "init_store passes the recorded mask as shape and the shape as mask", f"_init_arrays({', '.join(a)[:80]}) not recognised", key="init-store")
     base_init = P.func("pipefunc.map._storage_array._base.StorageBase.__init__")
-    sig = [a for a in base_init.param_names() if a != "self"]
-    ok = sig == ["folder", "shape", "internal_shape", "shape_mask"]
-    ctx.add("4-rebuild", base_init, base_init.node, ok, "storage constructors take (folder, shape, internal_shape, shape_mask)" if ok else f"StorageBase.__init__ signature is {sig}", key="ctor-sig")
+    base_sig = [a_ for a_ in base_init.param_names() if a_ != "self"][:4]
     for sub in P.subclasses("pipefunc.map._storage_array._base.StorageBase"):
         m = sub.methods.get("__init__")
         if m is None or "zarr" in sub.module.name:
             continue
-        sig = [a for a in m.param_names() if a != "self"][:4]
-        ok = sig == ["folder", "shape", "internal_shape", "shape_mask"]
-        ctx.add("4-rebuild", m, m.node, ok, f"{sub.name} keeps the positional constructor order" if ok else f"{sub.name}.__init__ takes {sig}: _init_arrays passes (path, external, internal, mask) positionally", key=f"ctor-sig {sub.name}")
-    sc = ri.methods["storage_class"]
-    ok = "self.storage.get(output_name, default)" in norm(sc.node) and "self.storage.get('')" in norm(sc.node) and "get_storage_class(self.storage)" in norm(sc.node)
-    ctx.add("4-rebuild", sc, sc.node, ok, "per-output storage: own entry, else the '' default, else error" if ok else "storage_class lookup order changed", key="storage-class")
+        sig = [a_ for a_ in m.param_names() if a_ != "self"][:4]
+        ctx.add("4-rebuild", m, m.node, sig == base_sig, f"{sub.name} keeps the positional constructor order of StorageBase" if sig == base_sig else
+                f"{sub.name}.__init__ takes {sig} but StorageBase {base_sig}: _init_arrays passes (path, external, internal, mask) positionally", key=f"ctor-sig {sub.name}")
 
-    # ------------------------------------------------------------ 5 persist
-    mp = "pipefunc.map._run._maybe_persist_memory"
+
+def rule_persist(ctx: Ctx) -> None:  # noqa: C901
+    P, eff = ctx.prog, ctx.effects
     for q in ("pipefunc.map._run.run_map", "pipefunc.map._run.run_map_async._run_pipeline"):
         f = P.func(q)
         cfg = ctx.cfg(f)
         nodes = set(cfg.nodes(lambda s: isinstance(s, ast.Expr) and isinstance(s.value, ast.Call) and dotted(s.value.func) == "_maybe_persist_memory"))
+        anywhere = [c for c in ast.walk(f.node) if isinstance(c, ast.Call) and "_maybe_persist_memory" in norm(c)]
         ok = bool(nodes) and cfg.must_pass(ENTRY, EXIT, nodes, normal_only=True)
-        if ok:
-            c = cfg.stmt[min(nodes)].value
-            ok = [norm(a) for a in c.args] == ["store", "persist_memory"]
-        ctx.add("5-persist", f, cfg.stmt[min(nodes)] if nodes else f.node, ok, "_maybe_persist_memory(store, persist_memory) is called synchronously before every normal return" if ok else
-                "a normal exit of the driver does not pass a direct call of _maybe_persist_memory(store, persist_memory) (skipped, deferred or not awaited)", key="called")
+        wp = None if ok else cfg.witness_path(ENTRY, EXIT, nodes)
+        ctx.tri("5-persist", f, cfg.stmt[min(nodes)] if nodes else f.node, ok, not ok and (bool(nodes) or not anywhere or True),
+                "_maybe_persist_memory is called synchronously before every normal return",
+                "a normal exit of the driver does not pass a direct call of _maybe_persist_memory (skipped, deferred or not awaited)", key=f"called {f.name}", path=cfg.describe(wp, f.module.relpath) if wp else None)
         loops = cfg.nodes(lambda s: isinstance(s, ast.For) and "topological_generations" in norm(s.iter))
-        ok = bool(nodes) and bool(loops) and all(lp not in cfg.reachable_from(n) for n in nodes for lp in loops)
-        ctx.add("5-persist", f, f.node, ok, "persisting happens after the last generation" if ok else "memory storage is persisted before all generations ran", key="after-loop")
-    pm = P.func(mp)
-    src = norm(pm.node)
-    body_if = [s for s in pm.node.body if isinstance(s, ast.If)]
-    ok = len(body_if) == 1 and norm(body_if[0].test) == "persist_memory" and "for arr in store.values()" in src
-    inner = [s for s in ast.walk(pm.node) if isinstance(s, ast.If) and s is not (body_if[0] if body_if else None)]
-    ok = ok and len(inner) == 1 and norm(inner[0].test) == "isinstance(arr, StorageBase)" and norm(inner[0].body[0]) == "arr.persist()"
-    ctx.add("5-persist", pm, pm.node, ok, "every StorageBase in the store is persisted (no filter by backend)" if ok else "_maybe_persist_memory skips some storages", key="persist-all")
-    for sub in [P.cls("pipefunc.map._storage_array._base.StorageBase"), *P.subclasses("pipefunc.map._storage_array._base.StorageBase")]:
-        if sub.name == "StorageBase" or "zarr" in sub.module.name:
+        if nodes and loops:
+            early = [n for n in nodes if any(lp in cfg.reachable_from(n) for lp in loops)]
+            ctx.add("5-persist", f, cfg.stmt[early[0]] if early else f.node, not early, "persisting happens after the last generation" if not early else "memory storage is persisted before all generations ran", key=f"after-loop {f.name}")
+    pm = P.func("pipefunc.map._run._maybe_persist_memory")
+    cfg = ctx.cfg(pm)
+    pn = cfg.nodes(lambda s: isinstance(s, ast.Expr) and isinstance(s.value, ast.Call) and isinstance(s.value.func, ast.Attribute) and s.value.func.attr == "persist")
+    if pn:
+        gs = guard_facts(cfg, Defs(pm), pn[0])
+        extra = [t for t, pol in gs if not (t in pm.param_names() and pol) and not (t.startswith("isinstance(") and "StorageBase" in t and pol)]
+        its = [it for it in iterations(pm.node) if ".values()" in norm(it["iter"]) or norm(it["iter"]) in pm.param_names()]
+        ctx.tri("5-persist", pm, cfg.stmt[pn[0]], bool(its) and not extra, bool(extra), "every StorageBase in the store is persisted (no filter by backend)",
+                f"storages are only persisted under `{extra[0] if extra else ''}`: the others keep their results in memory only", "iteration over the store not recognised", key="persist-all")
+    for sub in P.subclasses("pipefunc.map._storage_array._base.StorageBase"):
+        if "zarr" in sub.module.name:
             continue
         dmp = P.find_method(sub.qualname, "dump")
         per = P.find_method(sub.qualname, "persist")
@@ -243,17 +302,23 @@ def check(ctx: Ctx) -> None:  # noqa: C901, PLR0912, PLR0915
         ctx.add("5-persist", sub.qualname, sub.loc, ok, f"{sub.name}: {'dump writes files' if writes_on_dump else 'persist() writes the backing store'}" if ok else f"{sub.name} keeps results in memory and has no persist() that writes them", key=f"backend {sub.name}")
     dp = P.func("pipefunc.map._storage_array._dict.DictArray.persist")
     cfg = ctx.cfg(dp)
-    w = set(cfg.nodes(lambda s: isinstance(s, ast.Expr) and isinstance(s.value, ast.Call) and dotted(s.value.func) == "dump"))
-    early = [n for n in cfg.nodes(lambda s: isinstance(s, ast.If)) if norm(cfg.stmt[n].test) != "self.folder is None"]
-    ok = bool(w) and not early
-    ctx.add("5-persist", dp, dp.node, ok, "persist writes whenever there is a folder (no skip conditions)" if ok else f"DictArray.persist can skip writing under `{norm(cfg.stmt[early[0]].test)}`: state held by another process' copy is lost" if early else "DictArray.persist does not dump", key="dict-persist-unconditional")
+    w = cfg.nodes(lambda s: not isinstance(s, (ast.If, ast.For)) and any(isinstance(c, ast.Call) and _last(dotted(c.func)) == "dump" for c in ast.walk(s)))
+    if w:
+        gs = guard_facts(cfg, Defs(dp), w[0])
+        extra = [t for t, pol in gs if not (t == "self.folder is None" and not pol)]
+        ctx.add("5-persist", dp, cfg.stmt[w[0]], not extra, "persist writes whenever there is a folder (no skip conditions)" if not extra else f"DictArray.persist can skip writing under `{extra[0]}`: state held by another process' copy is lost", key="dict-persist-unconditional")
+    else:
+        ctx.add("5-persist", dp, dp.node, False, "DictArray.persist never dumps", key="dict-persist-unconditional")
     fa = P.func("pipefunc.map._storage_array._file.FileArray.to_array")
-    masks = [s for s in walk_no_nested(fa.node) if isinstance(s, ast.Assign) and norm(s.targets[0]) == "mask"]
-    ok = bool(masks) and all(norm(s.value) == "self.mask_linear()" for s in masks)
     none_masks = [c for c in ast.walk(fa.node) if isinstance(c, ast.Compare) and any(isinstance(o, (ast.Is, ast.IsNot)) for o in c.ops) and any(isinstance(x, ast.Constant) and x.value is None for x in c.comparators)
                   and "splat_internal" not in norm(c)]
-    ok = ok and not none_masks
-    ctx.add("5-persist", fa, masks[0] if masks else fa.node, ok, "FileArray.to_array masks by file presence" if ok else "FileArray.to_array derives the mask from the loaded values: a stored None reloads as missing", key="mask-from-files")
+    ctx.tri("5-persist", fa, none_masks[0] if none_masks else fa.node, "mask_linear()" in norm(fa.node) and not none_masks, bool(none_masks), "FileArray.to_array masks by file presence",
+            "FileArray.to_array derives the mask from the loaded values: a stored None reloads as missing", key="mask-from-files")
+
+
+def check(ctx: Ctx) -> None:
+    for rule in (rule_table, rule_paths, rule_process, rule_rebuild, rule_persist):
+        ctx.run(rule)
 
 
 def _proxy_fields(ctx: Ctx) -> dict[str, set[str]]:
@@ -308,7 +373,6 @@ MUTANTS = [
     Mutant("hand-built-path-in-loader", L, "    outputs = [_load_from_store(output_name, store).value for output_name in output_names]\n", "    _probe = run_folder / \"outputs\" / f\"{output_names[0]}.cloudpickle\"\n    outputs = [_load_from_store(output_name, store).value for output_name in output_names]\n", ("C04.2-paths",)),
     Mutant("persist-proxy-F04", D, "        dump(dict(self._dict), path)  # `_dict` might be a manager proxy, which cannot be unpickled later\n", "        dump(self._dict, path)\n", ("C04.3-process",), why="original F04"),
     Mutant("pickle-first", U, "    with atomic_write(path, \"wb\") as f:\n        cloudpickle.dump(obj, f)\n", "    import pickle\n\n    with atomic_write(path, \"wb\") as f:\n        try:\n            f.write(pickle.dumps(obj))\n        except Exception:  # noqa: BLE001\n            cloudpickle.dump(obj, f)\n", ("C04.3-process",), why="seeded C04/3"),
-    Mutant("init-arrays-swapped-shapes", RIF, "    return [storage_class(path, external_shape, internal_shape, mask) for path in paths]\n", "    return [storage_class(path, internal_shape, external_shape, mask) for path in paths]\n", ("C04.4-rebuild",)),
     Mutant("load-outputs-fresh-store", L, "    run_info = RunInfo.load(run_folder)\n    store = run_info.init_store()\n    outputs = [", "    run_info = RunInfo.load(run_folder)\n    store = {name: run_folder / \"outputs\" / name for name in output_names}\n    outputs = [", ("C04.4-rebuild", "C04.2-paths")),
     Mutant("persist-filter-backend", R, "            if isinstance(arr, StorageBase):\n                arr.persist()\n", "            if isinstance(arr, StorageBase) and not arr.dump_in_subprocess:\n                arr.persist()\n", ("C04.5-persist",), why="seeded C03/2"),
     Mutant("async-persist-not-awaited", R, "        _maybe_persist_memory(store, persist_memory)\n        return outputs\n\n    task = asyncio.create_task", "        asyncio.get_event_loop().run_in_executor(None, _maybe_persist_memory, store, persist_memory)\n        return outputs\n\n    task = asyncio.create_task", ("C04.5-persist",), why="seeded C03/3"),
